@@ -316,6 +316,51 @@ func checkC10(c *Check) {
 				if mm && pp {
 					okT = true
 				}
+				// the same text computed once by the constructor and kept in a field of the node (as the static
+				// leaf does): every store of that field is newTree's `s.String()[1:]` for the segment the node is given
+				kept := func(v ssa.Value) bool {
+					r, ns, ok := fieldPath(v)
+					if !ok || len(ns) != 1 || !vParam(sm, 0)(r) {
+						return false
+					}
+					f := fieldOf(addrOfLoad(strip(v)))
+					nt := p.Fn("route", "newTree")
+					if f == nil || nt == nil {
+						return false
+					}
+					nSt := 0
+					for _, u := range p.FieldUses(f) {
+						if u.Kind != "store" {
+							continue
+						}
+						nSt++
+						st, isSt := u.Instr.(*ssa.Store)
+						if !isSt || u.Fn != nt {
+							return false
+						}
+						sl, ok := strip(st.Val).(*ssa.Slice)
+						if !ok || sl.High != nil || !vConstInt(1)(sl.Low) || !vCall("(*route.Segment).String", vParam(nt, 1))(sl.X) {
+							return false
+						}
+						// the node's segment is that same parameter
+						owner, _ := addrRoot(st.Addr)
+						segOK := false
+						for _, u2 := range p.FieldUses(p.Field("route", "baseTree", "segment")) {
+							if st2, isSt2 := u2.Instr.(*ssa.Store); isSt2 && u2.Fn == nt {
+								if o2, _ := addrRoot(st2.Addr); o2 == owner && vParam(nt, 1)(st2.Val) {
+									segOK = true
+								}
+							}
+						}
+						if !segOK {
+							return false
+						}
+					}
+					return nSt > 0
+				}
+				if mm2, pp2 := cCmp(token.EQL, kept, vParam(sm, 1))(b); mm2 && pp2 {
+					okT = true
+				}
 			}
 		})
 		c.Cond(okT, p.FuncKey(sm)+":exact-compare", p.FuncPos(sm), "static tree: segment.String()[1:] == segment", "the static tree does not compare its canonical text with the request segment exactly")
